@@ -55,53 +55,80 @@ func TestGenC11(t *testing.T) {
 			}
 			var sConns, cConns []*handed
 			sidsBefore := map[string]bool{}
+			type pend struct {
+				done chan struct{}
+				conn net.Conn
+			}
+			startAccept := func(round int) *pend {
+				p := &pend{done: make(chan struct{})}
+				go func() {
+					defer close(p.done)
+					ev("S", "call")
+					c, err := srv.Accept()
+					mu.Lock()
+					defer mu.Unlock()
+					if err != nil {
+						ev("S", "fail")
+						return
+					}
+					// exclusivity: no earlier handed-out server connection may still be open
+					for _, h := range sConns {
+						q.check(h.closed, "c11:second-connection-while-first-open:server", func() string {
+							return fmt.Sprintf("scenario %d round %d: Accept returned while the previous connection was still open", sc, round)
+						})
+					}
+					ev("S", "ret %d", len(sConns))
+					sConns = append(sConns, &handed{conn: c})
+					p.conn = c
+				}()
+				return p
+			}
+			startDial := func(round int) *pend {
+				p := &pend{done: make(chan struct{})}
+				go func() {
+					defer close(p.done)
+					ev("C", "call")
+					c, err := cli.Dial(ctx, "")
+					mu.Lock()
+					defer mu.Unlock()
+					if err != nil {
+						ev("C", "fail")
+						return
+					}
+					for _, h := range cConns {
+						q.check(h.closed, "c11:second-connection-while-first-open:client", func() string {
+							return fmt.Sprintf("scenario %d round %d: Dial returned while the previous connection was still open", sc, round)
+						})
+					}
+					ev("C", "ret %d", len(cConns))
+					cConns = append(cConns, &handed{conn: c})
+					p.conn = c
+				}()
+				return p
+			}
+			// eager: like a gRPC Serve loop, the server calls Accept again as soon as the previous Accept
+			// returned, i.e. before the pairing handshake on that connection has stored the peer's key
+			eager := rr.chance(1, 2)
+			// faultyClose: the relay reports errors when streams are closed
+			faultyClose := rr.chance(1, 3)
+			var nextAccept *pend
 			for round := 0; round < rounds; round++ {
 				// Accept and Dial are issued at a random offset relative to the previous close:
 				// "early" = while the previous connection is still open
 				early := round > 0 && rr.chance(1, 2)
 				var sc2, cc2 net.Conn
-				var wg sync.WaitGroup
+				var pa, pd *pend
+				relay.mu.Lock()
+				seenAtRoundStart := len(relay.seen)
+				relay.mu.Unlock()
+				if nextAccept != nil {
+					pa, nextAccept = nextAccept, nil // issued while the previous round's pairing was still going on
+				}
 				call := func() {
-					wg.Add(2)
-					go func() {
-						defer wg.Done()
-						ev("S", "call")
-						c, err := srv.Accept()
-						mu.Lock()
-						defer mu.Unlock()
-						if err != nil {
-							ev("S", "fail")
-							return
-						}
-						// exclusivity: no earlier handed-out server connection may still be open
-						for _, h := range sConns {
-							q.check(h.closed, "c11:second-connection-while-first-open:server", func() string {
-								return fmt.Sprintf("scenario %d round %d: Accept returned while the previous connection was still open", sc, round)
-							})
-						}
-						ev("S", "ret %d", len(sConns))
-						sConns = append(sConns, &handed{conn: c})
-						sc2 = c
-					}()
-					go func() {
-						defer wg.Done()
-						ev("C", "call")
-						c, err := cli.Dial(ctx, "")
-						mu.Lock()
-						defer mu.Unlock()
-						if err != nil {
-							ev("C", "fail")
-							return
-						}
-						for _, h := range cConns {
-							q.check(h.closed, "c11:second-connection-while-first-open:client", func() string {
-								return fmt.Sprintf("scenario %d round %d: Dial returned while the previous connection was still open", sc, round)
-							})
-						}
-						ev("C", "ret %d", len(cConns))
-						cConns = append(cConns, &handed{conn: c})
-						cc2 = c
-					}()
+					if pa == nil {
+						pa = startAccept(round)
+					}
+					pd = startDial(round)
 				}
 				closePrev := func() {
 					if round == 0 {
@@ -117,6 +144,7 @@ func TestGenC11(t *testing.T) {
 						first, second = pc, ps
 						fs, ss = "C", "S"
 					}
+					relay.setFailClose(faultyClose)
 					_ = first.conn.Close()
 					mu.Lock()
 					first.closed = true
@@ -130,6 +158,7 @@ func TestGenC11(t *testing.T) {
 					ev(ss, "closed %d", round-1)
 					mu.Unlock()
 					synctest.Wait()
+					relay.setFailClose(false)
 				}
 				if early {
 					call()
@@ -143,7 +172,7 @@ func TestGenC11(t *testing.T) {
 					call()
 				}
 				done := make(chan struct{})
-				go func() { wg.Wait(); close(done) }()
+				go func(pa, pd *pend) { <-pa.done; <-pd.done; close(done) }(pa, pd)
 				for i := 0; i < 200; i++ {
 					select {
 					case <-done:
@@ -153,9 +182,56 @@ func TestGenC11(t *testing.T) {
 						synctest.Wait()
 					}
 				}
+				select {
+				case <-done:
+					sc2, cc2 = pa.conn, pd.conn
+				default:
+				}
+				if (sc2 == nil || cc2 == nil) && round >= 1 {
+					// which rendezvous did the two parties use in this round?
+					relay.mu.Lock()
+					oldIDs, newIDs := 0, 0
+					seenID := map[string]bool{}
+					for _, m := range relay.seen[seenAtRoundStart:] {
+						if !seenID[m.stream] {
+							seenID[m.stream] = true
+							if sidsBefore[m.stream] {
+								oldIDs++
+							} else {
+								newIDs++
+							}
+						}
+					}
+					for id := range relay.boxes { // a party waiting at a rendezvous has created its mailboxes there
+						if !sidsBefore[id] && !seenID[id] {
+							seenID[id] = true
+							newIDs++
+						}
+					}
+					relay.mu.Unlock()
+					q.check(!(oldIDs > 0 && newIDs > 0), "c17:parties-at-different-rendezvous-after-pairing", func() string {
+						return fmt.Sprintf("scenario %d round %d: after the pairing no connection came about; in this round the relay saw traffic or new mailboxes on %d pass-phrase-derived and %d key-derived streams: one party moved to the new rendezvous, the other did not", sc, round, oldIDs, newIDs)
+					})
+				}
 				if sc2 == nil || cc2 == nil {
 					q.fail("c11:no-fresh-connection", fmt.Sprintf("scenario %d round %d: Accept/Dial did not return a connection within 50 s (server %v client %v)", sc, round, sc2 != nil, cc2 != nil))
 					break
+				}
+				// C17 on every (re)connection: the client's send stream is the server's receive stream and vice
+				// versa, and the two directions differ
+				if a0, ok := cc2.LocalAddr().(*mailbox.Addr); ok {
+					a1, _ := cc2.RemoteAddr().(*mailbox.Addr)
+					b0, _ := sc2.LocalAddr().(*mailbox.Addr)
+					b1, _ := sc2.RemoteAddr().(*mailbox.Addr)
+					lineUp := a1 != nil && b0 != nil && b1 != nil && a0.SID == b1.SID && a1.SID == b0.SID && a0.SID != a1.SID
+					q.check(lineUp, "c17:streams-do-not-line-up-on-reconnect", func() string {
+						return fmt.Sprintf("scenario %d round %d: client send=%x.. recv=%x.. server send=%x.. recv=%x..", sc, round, a0.SID[60:], a1.SID[60:], b0.SID[60:], b1.SID[60:])
+					})
+				}
+				if eager && round+1 < rounds {
+					nextAccept = startAccept(round + 1)
+					synctest.Wait()
+					q.stat("eager_accepts", 1)
 				}
 				// Noise on top, with the shared ConnData (XX first, KK once keys are stored)
 				wantKK := cdC.RemoteKey() != nil
